@@ -58,7 +58,7 @@ inline int engine_main(int argc,char** argv,Engine& eng){
     if(verbose) fputs(text.c_str(),stdout);
     if(out.ok) printf("E %s ok\n",hex64(out.event_hash).c_str());
     else{
-      Json j=Json::object(); j["cls"]=out.cls; j["sig"]=out.sig; j["detail"]=out.detail;
+      Json j=Json::object(); j["cls"]=out.cls; j["sig"]=out.sig; j["detail"]=out.detail; j["prop"]=out.prop;
       printf("E %s FAIL %s\n",hex64(out.event_hash).c_str(),j.dump().c_str());
     }
     fflush(stdout);
@@ -76,7 +76,7 @@ inline int engine_main(int argc,char** argv,Engine& eng){
     bool careful=flag_of(argc,argv,"--careful");
     bool hashes=flag_of(argc,argv,"--hashes");
     int maxfail=atoi(arg_of(argc,argv,"--maxfail","20").c_str());
-    Counters ctr; std::set<uint64_t> shapes; long runs=0,nontrivial=0,fails=0,steps=0; double simtime=0;
+    Counters ctr; std::set<uint64_t> shapes; long runs=0,nontrivial=0,fails=0,steps=0,evals=0; double simtime=0;
     Json samples=Json::array();
     time_t t0=time(NULL); uint64_t last=from;
     for(uint64_t i=from;i<to;i++){
@@ -86,12 +86,12 @@ inline int engine_main(int argc,char** argv,Engine& eng){
       if(careful){ printf("B %llu\n",(unsigned long long)i); fflush(stdout); }
       Outcome out=eng.execute(plan,false,ctr,NULL);
       if(hashes) printf("H %llu %s\n",(unsigned long long)i,hex64(out.event_hash).c_str());
-      runs++; steps+=out.sim_steps; simtime+=out.sim_time; last=i+1;
+      runs++; evals+=out.evals; steps+=out.sim_steps; simtime+=out.sim_time; last=i+1;
       if(out.nontrivial){ nontrivial++; shapes.insert(out.shape); }
       if(samples.size()<3 && (out.nontrivial||runs>50)) samples.push(plan);
       if(!out.ok){
         fails++;
-        Json j=Json::object(); j["index"]=(long long)i; j["cls"]=out.cls; j["sig"]=out.sig; j["detail"]=out.detail;
+        Json j=Json::object(); j["index"]=(long long)i; j["cls"]=out.cls; j["sig"]=out.sig; j["detail"]=out.detail; j["prop"]=out.prop;
         j["hash"]=hex64(out.event_hash);
         for(size_t k=0;k<out.plan_patch.o.size();k++) plan[out.plan_patch.o[k].first]=out.plan_patch.o[k].second;
         j["plan"]=plan;
@@ -101,7 +101,7 @@ inline int engine_main(int argc,char** argv,Engine& eng){
       if((runs&255)==0){ printf("C %llu\n",(unsigned long long)(i+1)); fflush(stdout); }
     }
     Json st=Json::object();
-    st["runs"]=(long long)runs; st["nontrivial"]=(long long)nontrivial; st["fails"]=(long long)fails;
+    st["runs"]=(long long)runs; st["evals"]=(long long)evals; st["nontrivial"]=(long long)nontrivial; st["fails"]=(long long)fails;
     st["sim_steps"]=(long long)steps; st["sim_time"]=simtime; st["next"]=(long long)last;
     Json sh=Json::array(); for(std::set<uint64_t>::iterator it=shapes.begin();it!=shapes.end();++it) sh.push(hex64(*it));
     st["shapes"]=sh;
